@@ -13,6 +13,9 @@
 
 #include <symengine/symengine_config.h>
 #include <symengine/symengine_assert.h>
+#if defined(SYMENGINE_VERIF)
+#include <symengine/symengine_verif.h>
+#endif
 
 #if defined(WITH_SYMENGINE_RCP)
 
@@ -119,6 +122,9 @@ public:
     // Copy constructor
     RCP(const RCP<T> &rp) : ptr_(rp.ptr_)
     {
+#if defined(SYMENGINE_VERIF)
+        SYMENGINE_VERIF_YIELD(1);
+#endif
         if (not is_null())
             (ptr_->refcount_)++;
     }
@@ -143,6 +149,9 @@ public:
     }
     ~RCP() SYMENGINE_NOEXCEPT
     {
+#if defined(SYMENGINE_VERIF)
+        SYMENGINE_VERIF_YIELD(2);
+#endif
         if (ptr_ != nullptr and --(ptr_->refcount_) == 0)
             delete ptr_;
     }
